@@ -395,5 +395,49 @@ def r08_10(ctx):
     from .common import delegate
     delegate(ctx, c02.r02_9, lambda c: "prompt tests quantify" in c)
 
+def r08_11(ctx):
+    """R08.11 (a) the `resolved` marks of the default resolution are cleared after *every* load, merging ones included
+    (otherwise the default-marked entries of a second file are never compared); (b) a stored default that is taken over
+    keeps the option's own dependencies as its condition (`_make_and` over node.dep of all definitions), so it stops
+    providing a value when the option's `depends on` turns false after a later edit."""
+    repo = ctx.repo
+    f = repo.func(f"{CORE}:Kconfig._load_config")
+    ctx.analysed(f.qual)
+    fl = Flow(f.node, resolver=Resolver(f.node)).run()
+    for coll in ("self.unique_defined_syms", "self.unique_choices"):
+        construct = f"Kconfig._load_config/_defaults_resolved is cleared over {coll.split('.')[-1]} after every load"
+        sites = [n for lp in ast.walk(f.node) if isinstance(lp, ast.For) and ast.unparse(lp.iter) == coll and isinstance(lp.target, ast.Name)
+                 for n in ast.walk(lp) if isinstance(n, ast.Assign) and ast.unparse(n.targets[0]) == f"{lp.target.id}._defaults_resolved"
+                 and isinstance(n.value, ast.Constant) and n.value.value is False]
+        if not sites:
+            ctx.bad(construct, "the marks are never cleared: only the first load of an instance resolves its default-marked entries", f.loc())
+            continue
+        cond = [sorted(g for g in (fl.guards_at(s_) or set()) if g[0] in ("replace", "is_main_sdkconfig")) for s_ in sites]
+        (ctx.ok(construct, f.loc(sites[0])) if any(not c for c in cond) else
+         ctx.bad(construct, f"cleared only under {cond[0]}: after a merging load the marks stay set and the next file's default-marked entries are not compared",
+                 f.loc(sites[0])))
+    inj = repo.func(f"{CORE}:Symbol._inject_default_value")
+    ctx.analysed(inj.qual)
+    from .common import expand_locals
+    st = [n for n in ast.walk(inj.node) if isinstance(n, ast.Assign) and any(ast.unparse(t) == "self.defaults" for t in n.targets)]
+    construct = "Symbol._inject_default_value/the injected default is conditioned on the option's own dependencies"
+    if not st:
+        raise AnchorError("_inject_default_value: store into self.defaults not found")
+    v = st[0].value
+    cond = None
+    if isinstance(v, ast.List) and len(v.elts) == 1 and isinstance(v.elts[0], ast.Tuple) and len(v.elts[0].elts) == 2:
+        cond = v.elts[0].elts[1]
+    if cond is None:
+        raise AnalysisError("_inject_default_value: shape of the injected defaults list not recognised")
+    ok = False
+    if isinstance(cond, ast.Name):
+        folds = [n for n in ast.walk(inj.node) if isinstance(n, ast.Assign) and ast.unparse(n.targets[0]) == cond.id and "_make_and" in ast.unparse(n.value)
+                 and ".dep" in ast.unparse(n.value)]
+        loops = [lp for lp in ast.walk(inj.node) if isinstance(lp, ast.For) and ast.unparse(lp.iter) == "self.nodes" and any(x in folds for x in ast.walk(lp))]
+        ok = bool(folds) and bool(loops)
+    (ctx.ok(construct, inj.loc(st[0])) if ok else
+     ctx.bad(construct, f"the condition is `{ast.unparse(cond)}`, not the conjunction of the definitions' dependencies: the stored value keeps being used (and "
+             "written) after the option's `depends on` turned false", inj.loc(st[0])))
+
 def rules():
-    return [("R08.10", r08_10, 3), ("R08.9", r08_9, 5), ("R08.1", r08_1, 2), ("R08.2", r08_2, 2), ("R08.3", r08_3, 8), ("R08.5", r08_5, 3), ("R08.6", r08_6, 8), ("R08.7", r08_7, 6), ("R08.8", r08_8, 1)]
+    return [("R08.11", r08_11, 3), ("R08.10", r08_10, 3), ("R08.9", r08_9, 5), ("R08.1", r08_1, 2), ("R08.2", r08_2, 2), ("R08.3", r08_3, 8), ("R08.5", r08_5, 3), ("R08.6", r08_6, 8), ("R08.7", r08_7, 6), ("R08.8", r08_8, 1)]
